@@ -281,3 +281,84 @@ Proof. intros H. cbn in H. congruence. Qed.
 Theorem model_blank_chunk_single s ch :
   In ch (model_chunks s) -> nonblank_chunk ch = false -> exists l, ch = [l] /\ is_blank l = true.
 Proof. destruct st_inv_s0 as [I F]. apply blank_chunk_single; [exact I|exact F|exact cnt_inv_s0]. Qed.
+
+(* ---------- comments: no "#" survives into any statement ---------- *)
+Lemma has_char_app ch a b : has_char ch (a ++ b) = has_char ch a || has_char ch b.
+Proof. induction a as [|c a IH]; cbn [append has_char]; [reflexivity|]. rewrite IH. apply orb_assoc. Qed.
+Lemma has_char_rev_str ch s : forall acc, has_char ch (rev_str s acc) = has_char ch s || has_char ch acc.
+Proof.
+  induction s as [|c s IH]; intros acc; cbn [rev_str has_char]; [reflexivity|].
+  rewrite IH. cbn [has_char]. destruct (Ascii.eqb c ch), (has_char ch s), (has_char ch acc); reflexivity.
+Qed.
+Lemma has_char_lstrip ch p s : has_char ch s = false -> has_char ch (lstrip_by p s) = false.
+Proof.
+  unfold lstrip_by. induction s as [|c s IH]; cbn [span_while has_char]; [reflexivity|].
+  intros H. apply orb_false_iff in H as [Hc Hs]. destruct (p c).
+  - destruct (span_while p s) as [a b]. cbn [snd] in *. apply IH, Hs.
+  - cbn [snd has_char]. rewrite Hc, Hs. reflexivity.
+Qed.
+Lemma has_char_rstrip ch p s : has_char ch s = false -> has_char ch (rstrip_by p s) = false.
+Proof.
+  intros H. unfold rstrip_by. rewrite has_char_rev_str. cbn [has_char]. rewrite orb_false_r.
+  apply has_char_lstrip. rewrite has_char_rev_str. cbn [has_char]. rewrite H. reflexivity.
+Qed.
+Lemma find_any_before ch s a b : find_any ch s = Some (a, b) -> has_char ch a = false.
+Proof.
+  revert a b. induction s as [|c s IH]; cbn [find_any]; intros a b; [discriminate|].
+  destruct (Ascii.eqb c ch) eqn:E; [intros H; inversion H; reflexivity|].
+  destruct (find_any ch s) as [[a' b']|]; [|discriminate]. intros H; inversion H; subst.
+  cbn [has_char]. rewrite E. cbn. eapply IH; reflexivity.
+Qed.
+
+Lemma strip_comments_no_hash line : has_char "#" (strip_comments line) = false.
+Proof.
+  unfold strip_comments. destruct (find_any "#" line) as [[a b]|] eqn:E.
+  - apply has_char_rstrip. eapply find_any_before; eauto.
+  - apply find_any_none, E.
+Qed.
+(* a line without "#" is left as it is *)
+Lemma strip_comments_id line : has_char "#" line = false -> strip_comments line = line.
+Proof.
+  unfold strip_comments. destruct (find_any "#" line) as [[a b]|] eqn:E; [|reflexivity].
+  intros H. rewrite (find_any_has _ _ _ _ E) in H. discriminate.
+Qed.
+
+Lemma has_char_join_none ch l :
+  Ascii.eqb nl ch = false -> (forall x, In x l -> has_char ch x = false) -> has_char ch (join_nl l) = false.
+Proof.
+  intros Hn. induction l as [|x r IH]; intros H; [reflexivity|].
+  destruct r as [|y r']; cbn [join_nl]; [apply H; left; reflexivity|].
+  rewrite !has_char_app. rewrite (H x (or_introl eq_refl)). unfold nl_s. cbn [has_char]. rewrite Hn. cbn [orb].
+  apply IH. intros z Hz. apply H. right. exact Hz.
+Qed.
+
+Lemma split_lines_no_hash lines : forall st ys oe,
+  (forall l, In l (buffer st) -> has_char "#" l = false) -> (forall l, In l lines -> has_char "#" l = false) ->
+  split_lines st lines = (ys, oe) -> forall y, In y ys -> has_char "#" y = false.
+Proof.
+  induction lines as [|line rest IH]; intros st ys oe Hb Hl; cbn [split_lines].
+  - intros H; inversion H; subst. intros y [].
+  - pose proof (split_step_chunk st line) as S.
+    assert (Hrest : forall l, In l rest -> has_char "#" l = false) by (intros l Hi; apply Hl; right; exact Hi).
+    assert (Hbuf : forall l, In l (line :: buffer st) -> has_char "#" l = false).
+    { intros l [<-|Hi]; [apply Hl; left; reflexivity|apply Hb, Hi]. }
+    destruct (split_step st line) as [st'|eq st'|e].
+    + apply IH; [|exact Hrest]. destruct (step_chunk st line) as [ch|].
+      * destruct S as (_ & -> & _). intros l [].
+      * rewrite S. exact Hbuf.
+    + destruct (split_lines st' rest) as [ys' e'] eqn:E2. intros H; inversion H; subst.
+      destruct (step_chunk st line) as [ch|]; [|contradiction]. destruct S as (-> & Eb & -> & _).
+      intros y [<-|Hy].
+      * apply has_char_join_none; [reflexivity|]. intros x Hx. apply in_rev in Hx. apply Hbuf, Hx.
+      * eapply IH; [| |exact E2|exact Hy]; [rewrite Eb; intros l []|exact Hrest].
+    + intros H; inversion H; subst. intros y [].
+Qed.
+
+(* for EVERY input string: no statement handed to parse_equation contains a "#" — comment text never reaches the
+   term lexer, the templates or the generated code *)
+Theorem statements_have_no_comment s y : In y (fst (split_M s)) -> has_char "#" y = false.
+Proof.
+  unfold split_M. destruct (split_lines s0 (model_lines s)) as [ys oe] eqn:E. cbn [fst].
+  eapply split_lines_no_hash; [| |exact E]; [intros l []|].
+  unfold model_lines. intros l Hl. apply in_map_iff in Hl as (x & <- & _). apply strip_comments_no_hash.
+Qed.
